@@ -239,6 +239,9 @@ type Event struct {
 }
 
 type loadRec struct {
+	Op         *Op // the operation whose loader this is
+	TaskRef    *simrt.Task
+	InstallEnd uint64 // when the executor function / operation that ran the loader returned (0: unknown)
 	Task    int
 	Enter   uint64
 	Exit    uint64
@@ -432,9 +435,17 @@ func (r *Runner) mkEvent(e otter.DeletionEvent[int, int], atomic bool) Event {
 // (a panic in an executor task cannot reach the caller of the cache operation).
 func (r *Runner) runExec(fn func()) {
 	r.ExecRuns++
+	start := len(r.Loads)
+	me := simrt.Cur()
 	defer func() {
 		if p := recover(); p != nil {
 			r.bgExecPanics = append(r.bgExecPanics, p)
+		}
+		end := r.W.Tick()
+		for _, l := range r.Loads[start:] {
+			if l.TaskRef == me && l.InstallEnd == 0 {
+				l.InstallEnd = end
+			}
 		}
 	}()
 	fn()
@@ -489,6 +500,7 @@ func (l loader) phase() int {
 
 func (r *Runner) loaderBody(rec *loadRec) {
 	rec.Enter = r.W.Tick()
+	rec.TaskRef = simrt.Cur()
 	if c := curCtx(); c != nil {
 		rec.Task, rec.OpIdx = c.id, c.opIdx
 	} else {
@@ -521,7 +533,7 @@ func (l loader) single(k int, reload bool, old int) (int, error) {
 		plan = *l.op.Load
 	}
 	ph := l.phase()
-	rec := &loadRec{Keys: []int{k}, Reload: reload, Plan: plan}
+	rec := &loadRec{Op: l.op, Keys: []int{k}, Reload: reload, Plan: plan}
 	if reload {
 		rec.Olds = []int{old}
 	}
@@ -560,7 +572,7 @@ func (l loader) bulkDo(keys []int, reload bool, olds []int) (map[int]int, error)
 	}
 	ph := l.phase()
 	ks := append([]int(nil), keys...)
-	rec := &loadRec{Keys: ks, Reload: reload, Bulk: true, Plan: plan, Olds: append([]int(nil), olds...)}
+	rec := &loadRec{Op: l.op, Keys: ks, Reload: reload, Bulk: true, Plan: plan, Olds: append([]int(nil), olds...)}
 	r.loaderBody(rec)
 	defer func() { rec.Exit = r.W.Tick() }()
 	rec.Outcome = plan.Kind
